@@ -120,7 +120,7 @@ func initProperties() {
 			)},
 		{ID: "C03", Title: "Thrift->JSON conversion emits valid JSON denoting exactly the value",
 			Decides: "balanced `{}`/`[]` on every success path of the t2j walkers (JSONPAIR — a necessary condition of `never malformed JSON with a nil error`), member keys come from one FieldDescriptor accessor everywhere (KEYSRC), thrift type switches are exhaustive (KINDEXH), unknown fields are an error exactly when disallowed and are otherwise skipped (NEGPOLARITY, UNKNOWNSKIP), no error dropped (DROPERR), loops consume (LOOPPROGRESS).",
-			NotDec:  "comma placement, numeric and string exactness, non-finite doubles (value-level).",
+			NotDec:  "comma placement, numeric and string exactness (value-level).",
 			Uses: uses(
 				use("ROOTSTRUCTNIL", "a non-struct root descriptor is not dereferenced as a struct", inPkgs("conv/t2j")),
 				use("UNKNOWNBREAK", "an unknown field does not end the field loop", inPkgs("conv/t2j", "thrift")),
@@ -164,7 +164,7 @@ func initProperties() {
 			)},
 		{ID: "C05", Title: "Thrift DOM load/marshal is lossless; DOM edits marshal as edited",
 			Decides: "the by-id slot threshold is compared identically at load, lookup and store (THRESHAGREE), PathNode.marshal covers every thrift type and writes headers before elements (KINDEXH, HDRFIRST), child-slice growth is bounded by the input (ALLOCBOUND), Marshal copies out of the pooled buffer (POOLESCAPE).",
-			NotDec:  "losslessness itself, hash-slot reuse across loads, stale entries.",
+			NotDec:  "losslessness itself (byte equality of Marshal(Load(x)) with x for every x); that edits through SetField/SetByStr land in the slot a later lookup consults.",
 			Uses: uses(
 				use("SPARSECLEAR", "a re-used children array starts empty where a sparse store skips or probes slots", thriftGeneric),
 				use("CHILDRESET", "a slot that is not re-scanned loses the children of its previous value", thriftGeneric),
@@ -184,7 +184,7 @@ func initProperties() {
 			)},
 		{ID: "C06", Title: "Decoders survive arbitrary bytes: error, not crash, hang or over-read", QuickP: true,
 			Decides: "for every function of both protocols, both generic packages and the four converters, in both build configurations: every cursor loop consumes input or leaves (LOOPPROGRESS), no input-derived count sizes an allocation unbounded (ALLOCBOUND), size-guarded functions never get a non-positive size (PANICARG), descriptor lookups on input-derived ids are nil-checked (NILLOOKUP), input-driven recursion carries a depth budget (RECDEPTH), no decoder error is dropped or swallowed (DROPERR, ERRSWALLOW).",
-			NotDec:  "out-of-bounds reads through unsafe (NewNode header peeks, DecodeString trusting a length — needs value ranges), panics inside sonic or the native blob, wall-clock bounds.",
+			NotDec:  "out-of-bounds reads through unsafe in general (only the scalar casts of thrift/generic are tied to the node length, RAWWIDTH; header peeks of iterators and of the protobuf side need value ranges), panics inside sonic or the native blob, wall-clock bounds.",
 			Uses: uses(
 				use("ROOTSTRUCTNIL", "a non-struct root descriptor is not dereferenced as a struct", nil),
 				use("RAWWIDTH", "scalar casts of a generic node are bounded by the node's length", nil),
